@@ -54,6 +54,7 @@ RunFilters(fs, i, reached) ==
   IF i > Len(fs) THEN <<"ok", reached>>
   ELSE IF fs[i] = "allow" THEN RunFilters(fs, i + 1, reached)
   ELSE IF fs[i] = "deny" THEN <<"mockDeny", reached>>
+  ELSE IF fs[i] = "broken" THEN <<"error", reached>>   \* a filter that cannot be set up (its provider's discovery is down) has not allowed: an error, never OK
   ELSE <<"oidcRedirect", reached + 1>>            \* an OIDC filter without a session cookie answers with the login redirect
 
 Judge(chains, allowUnmatched, hdrs) ==
